@@ -485,7 +485,7 @@ ATOMS_FULL = [
     ("bstr", "", "s"), ("bstr", "d", "a]]b"), ("bstr", "", "\nx"),
     # f-strings without fields
     ("fstr", "f", None, (("t", ("s",)),)), ("fstr", "f", None, (("t", ("{{", "}}")),)),
-    ("fstr", None, "f", (("t", ("a", "}}")),)),
+    ("fstr", None, "f", (("t", ("a", "}}")),)), ("fstr", None, "f", (("t", ("\n", "x")),)),
     # empty sequences
     ("seq", "(", ()), ("seq", "[", ()), ("seq", "{", ()), ("seq", "#(", ()), ("seq", "#{", ()),
 ]
